@@ -450,6 +450,18 @@ class Interp:
                 raise ShapeError(f'table function raises at line {st.lineno}')
             elif isinstance(st, ast.Assert):
                 continue
+            elif isinstance(st, ast.While) and not st.orelse:
+                try:
+                    while self.ev(st.test, env):
+                        self.fuel -= 1
+                        if self.fuel < 0:
+                            raise ShapeError('table evaluation did not terminate')
+                        try:
+                            self.run(st.body, env)
+                        except _Continue:
+                            continue
+                except _Break:
+                    pass
             elif isinstance(st, ast.Try) and not st.finalbody and not st.orelse:
                 # native exceptions only (a conversion that refuses its operand): the handler named for it runs
                 names = {'ValueError': ValueError, 'OverflowError': OverflowError, 'TypeError': TypeError, 'KeyError': KeyError,
